@@ -267,9 +267,9 @@ Proof.
                 else Ok ([], 0, gs0))
                = Ok (ds, zlen ds, gs_add gt (zlen ds) gs0)).
   { subst ds. destruct (N.eqb number 0 && (prec =? 0)) eqn:E.
-    - replace (negb (N.eqb number 0) || negb (prec =? 0)) with false by (destruct (N.eqb number 0), (prec =? 0); cbn in *; congruence).
+    - replace (negb (N.eqb number 0) || negb (prec =? 0)) with false by (destruct (N.eqb number 0), (prec =? 0); cbn [andb orb negb] in *; congruence).
       rewrite gs_add_0. reflexivity.
-    - replace (negb (N.eqb number 0) || negb (prec =? 0)) with true by (destruct (N.eqb number 0), (prec =? 0); cbn in *; congruence).
+    - replace (negb (N.eqb number 0) || negb (prec =? 0)) with true by (destruct (N.eqb number 0), (prec =? 0); cbn [andb orb negb] in *; congruence).
       rewrite digits_loop_spec; try assumption; try lia.
       + rewrite app_nil_r. reflexivity.
       + unfold gs_ok, gs0; cbn; lia. }
@@ -297,7 +297,7 @@ Proof.
     - rewrite Hg. unfold read_grouping, default_locale. cbn [loc_grouping length bind].
       change (0 <? 0) with false. change (0 <? Z.of_nat 1) with true. cbn [bind nth Z.to_nat].
       eexists; split; [reflexivity|]. cbn [gs_extra gs_g gs_r gs_c]. split; [assumption|].
-      subst s2. unfold gs_add, gs0 in *. destruct gt; cbn in *.
+      subst s2. unfold gs_add, gs0 in *. destruct gt; cbn [gs_c gs_g gs_r gs_extra] in *.
       + left. lia.
       + right. repeat split; try assumption; intros; congruence.
     - eexists; split; [reflexivity|]. split; [assumption|]. right. repeat split; try assumption.
@@ -312,7 +312,7 @@ Proof.
   { destruct gt; [|left; reflexivity]. right.
     destruct Hc3 as [Hz | [Hg [Hr3 [Hc _]]]].
     - left. assert (ds = []) by (destruct ds; [reflexivity | unfold zlen in Hz; cbn [length] in Hz; lia]).
-      subst zs. rewrite H. replace (zlen [] <? prec) with false by (unfold zlen in *; cbn in *; lia). reflexivity.
+      subst zs. rewrite H. replace (zlen [] <? prec) with false by (unfold zlen in *; cbn [length] in *; lia). reflexivity.
     - right. repeat split; try assumption. specialize (Hc eq_refl).
       rewrite app_length, Hzs, repeat_length. unfold zlen in *. lia. }
   rewrite H4. cbn [bind snd app].
@@ -320,7 +320,7 @@ Proof.
   f_equal.
   assert (Hsl : zlen (sign_chars negative asign pspace ++ prefix)
                 = (if negative || asign || pspace then 1 else 0) + Z.of_nat (length prefix)).
-  { unfold zlen, sign_chars. rewrite app_length. destruct negative, asign, pspace; cbn; lia. }
+  { unfold zlen, sign_chars. rewrite app_length. destruct negative, asign, pspace; cbn [orb length]; rewrite Nat2Z.inj_add; reflexivity. }
   assert (Hbl : zlen (repeat 48%N (Z.to_nat (prec - zlen ds)) ++ ds) = Z.max (zlen ds) prec).
   { unfold zlen. rewrite app_length, repeat_length. lia. }
   rewrite Hsl, Hbl.
